@@ -22,6 +22,12 @@ class ArrayType(SerializableType):
         self._capacity = int(capacity)
         if self._capacity < 1:
             raise InvalidNumberOfElementsError("Array capacity cannot be less than 1")
+        try:
+            _ = element_type.bit_length_set
+        except TypeError:  # E.g., a service type.
+            raise TypeParameterError(
+                "%s is not serializable and cannot be an array element type" % element_type
+            ) from None
 
     @property
     def deprecated(self) -> bool:
